@@ -73,13 +73,16 @@ def models(max_features=13):
     out.append(binary(3))
     out.append(binary(3, (1, 1)))
     out.append(many_relations(5))
+    two = lambda nm: F(nm, [R(0, 1, [F(nm + 'o')])])          # noqa: E731  (a child with 2 configurations)
+    for card in ((1, 2), (0, 2), (2, 3), (2, 2)):
+        out.append(M(F('Rt', [R(card[0], card[1], [F('A1'), F('A2'), two('A3')]), R(card[0], card[1], [F('B1'), two('B2'), two('B3')])])))
     out.append(nested_groups())
     return tuple(m for m in out if sh.size(m) <= max_features)
 
 
 BIG_SPECS = (('wide', 300, (300, 300)), ('wide', 257, (257, 257)), ('wide', 300, (1, 1)), ('wide', 300, (1, 300)),
              ('wide', 1000, (0, 1)), ('wide', 260, (2, 259)), ('chain', 600, (1, 1)), ('chain', 600, (0, 1)), ('comb', 250, None),
-             ('fullgroup-with-subchain', 258, None))
+             ('fullgroup-with-subchain', 258, None), ('pow-group', 16, (2, 4)), ('pow-group', 14, (1, 3)), ('pow-group', 18, (3, 4)))
 
 
 @functools.lru_cache(maxsize=32)
@@ -98,6 +101,10 @@ def big_build(spec):
         a, b, kids = root[1][0]
         kids = (F(kids[0][0], [R(1, 1, [F('Sub1', [R(1, 1, [F('Sub2')])])])]),) + kids[1:]
         return M(F(root[0], [R(a, b, kids)]))
+    if kind == 'pow-group':
+        # [a..b] over 4 children, each an or-group of n leaves: every child has 2**n - 1 configurations
+        kids = [F('G%d' % g, [R(1, n, [F('G%dL%d' % (g, i)) for i in range(n)])]) for g in range(4)]
+        return M(F('Rt', [R(card[0], card[1], kids)]))
     raise ValueError(spec)
 
 
